@@ -19,16 +19,11 @@ namespace {
 
 // hash table geometry seen by the probe search (must equal that of a fresh engine: Clear Hash restores the full table)
 bool g_probeActive = false;
-long g_epoch = -1;
-unsigned long long g_usedMin = ~0ULL, g_usedMax = 0, g_tableSize = 0;
+unsigned long long g_lastUsed = 0, g_tableSize = 0;
 void indexObserver(unsigned long long, unsigned long long usedSize, unsigned long long tableSize) {
-    if (!g_probeActive) return;
-    // only the accesses after the previous search's bestmove belong to the probe search (an earlier search may
-    // still be running when the probe's go is sent)
-    long ep = sess::bestmovesSoFar();
-    if (ep != g_epoch) { g_epoch = ep; g_usedMin = ~0ULL; g_usedMax = 0; }
-    if (usedSize < g_usedMin) g_usedMin = usedSize;
-    if (usedSize > g_usedMax) g_usedMax = usedSize;
+    // the last access before the end of the session belongs to the probe search (one thread, nothing runs after
+    // its bestmove): it shows the table geometry the probe worked with
+    g_lastUsed = usedSize;
     g_tableSize = tableSize;
 }
 void probeMarker(const std::string& text) { if (text == "probe begins") g_probeActive = true; }
@@ -57,15 +52,14 @@ std::string probeTranscript(const sess::History& h, const uci::Model& m) {
             lastStats = "final nodes " + t[2];
     }
     out += lastStats + "\n";
-    out += "hash geometry during the probe: used " + std::to_string(g_usedMin) + ".." + std::to_string(g_usedMax) + " of " + std::to_string(g_tableSize) + " entries\n";
+    out += "hash table used by the probe search: " + std::to_string(g_lastUsed) + " of " + std::to_string(g_tableSize) + " entries\n";
     return out;
 }
 
 std::string runAndTranscribe(const Scenario& sc, vf::Result& res, bool checkOracles) {
     sess::History h;
     g_probeActive = false;
-    g_epoch = -1;
-    g_usedMin = ~0ULL; g_usedMax = 0; g_tableSize = 0;
+    g_lastUsed = 0; g_tableSize = 0;
     verif_tt_index_observer = indexObserver;
     sess::customOp = probeMarker;
     sess::runSession(sc, h, res);
@@ -128,8 +122,21 @@ void runC14(const Scenario& sc, vf::Result& res) {
         if (vf::startsWith(sc.ops[i], "send position")) havePos = true;
         if (sc.ops[i] == "send setoption name Clear Hash") haveClear = true;
     }
-    // a (minimised) scenario without the complete probe part has nothing to compare
-    if (mark == sc.ops.size() || !haveGo || !havePos || !haveClear) { res.counters["no_probe"]++; return; }
+    // the property is stated for one search thread and full strength: the last Threads/Strength settings before the probe decide
+    long threadsAtProbe = 1, strengthAtProbe = 1000, npsAtProbe = 0;
+    bool limitStrength = false, ownBook = false;
+    for (size_t i = 0; i < mark && i < sc.ops.size(); i++) {
+        std::vector<std::string> t = vf::splitWs(sc.ops[i]);
+        if (t.size() >= 6 && t[0] == "send" && t[1] == "setoption" && t[4] == "value") {
+            if (t[3] == "Threads") threadsAtProbe = atol(t[5].c_str());
+            if (t[3] == "Strength") strengthAtProbe = atol(t[5].c_str());
+            if (t[3] == "MaxNPS") npsAtProbe = atol(t[5].c_str());
+            if (t[3] == "UCI_LimitStrength") limitStrength = t[5] == "true";
+            if (t[3] == "OwnBook") ownBook = t[5] == "true";
+        }
+    }
+    // a (minimised) scenario without the complete probe part, or outside the property's domain, has nothing to compare
+    if (mark == sc.ops.size() || !haveGo || !havePos || !haveClear || threadsAtProbe != 1 || strengthAtProbe != 1000 || npsAtProbe != 0 || limitStrength || ownBook) { res.counters["no_probe"]++; return; }
     Scenario a = sc, b = sc, a2 = sc;
     a.ops.clear();
     b.ops.clear();
